@@ -73,6 +73,10 @@ pub mod zfenv {
         #[verifier::external_body]
         pub fn read_octet(&mut self) -> io::Result<Option<u8>> { unimplemented!() }
         #[verifier::external_body]
+        pub fn read(&mut self, into: &mut [u8]) -> (r: io::Result<bool>)
+            ensures final(into)@.len() == old(into)@.len(),
+        { unimplemented!() }
+        #[verifier::external_body]
         pub fn expect_field(&mut self, field: &[u8]) -> io::Result<bool> { unimplemented!() }
         #[verifier::external_body]
         pub fn expect_field_case_insensitive(&mut self, field: &[u8]) -> io::Result<bool> { unimplemented!() }
@@ -168,6 +172,37 @@ pub mod zfenv {
 
     pub assume_specification [u8::is_ascii_digit] (x: &u8) -> (r: bool)
         ensures r == (48 <= *x && *x <= 57);
+
+    /// Target of rewrite ZF6 (verified, not assumed): `s.iter().all(u8::is_ascii_digit)`.
+    pub fn vq_all_ascii_digits(s: &[u8]) -> (r: bool)
+        ensures r == (forall|i: int| 0 <= i < s@.len() ==> 48 <= #[trigger] s@[i] && s@[i] <= 57),
+    {
+        let mut i: usize = 0;
+        while i < s.len()
+            invariant i <= s@.len(), forall|j: int| 0 <= j < i ==> 48 <= #[trigger] s@[j] && s@[j] <= 57,
+            decreases s@.len() - i,
+        {
+            if !s[i].is_ascii_digit() { return false; }
+            i = i + 1;
+        }
+        true
+    }
+
+    /// `TryFrom<Vec<u8>> for Box<CharacterString>` (src/rr/rdata/std13.rs: length test, then an
+    /// `unsafe` repr(transparent) cast): fails exactly when longer than 255 octets, else the same octets.
+    impl TryFrom<Vec<u8>> for Box<crate::rr::rdata::CharacterString> {
+        type Error = crate::rr::rdata::CharacterStringTooLongError;
+        #[verifier::external_body]
+        fn try_from(vec: Vec<u8>) -> (r: core::result::Result<Self, Self::Error>)
+            ensures
+                vec@.len() <= 255 ==> r is Ok && r->Ok_0.octets@ == vec@,
+                vec@.len() > 255 ==> r is Err,
+        { unimplemented!() }
+    }
+    impl vstd::std_specs::convert::TryFromSpecImpl<Vec<u8>> for Box<crate::rr::rdata::CharacterString> {
+        open spec fn obeys_try_from_spec() -> bool { false }
+        open spec fn try_from_spec(v: Vec<u8>) -> core::result::Result<Self, crate::rr::rdata::CharacterStringTooLongError> { arbitrary() }
+    }
 
     /// Target of rewrite ZF4 (verified, not assumed): Result::map with the second projection.
     pub fn vq_map_second<A, B, E>(r: core::result::Result<(A, B), E>) -> (o: core::result::Result<B, E>)
